@@ -14,9 +14,16 @@ FLAVOURS = {
 
 
 def source_list(repo):
-    rc, out, err = run(["git", "-C", repo, "ls-files", "-co", "--exclude-standard", "-z"], timeout=120)
+    rc, out, err = run(["git", "-C", repo, "ls-files", "-c", "-z"], timeout=120)
     if rc == 0 and out:
         files = [f for f in out.decode().split("\0") if f]
+        # untracked files count only when they look like sources (a running `make check` in the tree creates and
+        # removes scratch files all the time; those must neither break the copy nor change the tree hash)
+        rc2, out2, err2 = run(["git", "-C", repo, "ls-files", "-o", "--exclude-standard", "-z"], timeout=120)
+        SRC = (".c", ".h", ".in", ".ac", ".am", ".m4", ".y", ".l", ".et", ".ct", ".sed", ".awk", ".pl", ".sh", ".conf", ".mk", ".texinfo", ".1", ".5", ".8")
+        for f in (out2.decode().split("\0") if rc2 == 0 else []):
+            if f and f.endswith(SRC) and not f.startswith("tests/"):
+                files.append(f)
     else:  # not a git tree: walk and filter build products
         files = []
         for d, ds, fs in os.walk(repo):
@@ -68,7 +75,7 @@ def build(flavour="plain", repo=None, quiet=True):
         with open(lst, "w") as f:
             f.write("\n".join(files) + "\n")
         rc, out, err = run(["rsync", "-a", "-c", "--files-from=" + lst, repo + "/", bdir + "/"], timeout=600)
-        if rc != 0:
+        if rc not in (0, 23, 24):
             raise RuntimeError("rsync failed: " + err.decode()[-1000:])
         # remove sources that disappeared from the tree since the previous build
         prev = bdir + ".files.prev"
